@@ -35,6 +35,9 @@ SPECIES = {
     "c2h4": ("c2h4", 0, 1),
     "hcn": ("hcn", 0, 1),
     "h2": ("h2", 0, 1),
+    "h2s": ("h2s", 0, 1),
+    "hcl": ("hcl", 0, 1),
+    "sih4": ("sih4", 0, 1),
     "nh4+": ("nh4", 1, 1),
     "h3o+": ("h3o", 1, 1),
     "oh-": ("oh", -1, 1),
@@ -48,6 +51,8 @@ SPECIES = {
     "ch2t": ("ch2", 0, 3),
 }
 CLOSED_NEUTRAL = ["h2o", "nh3", "ch4", "h2co", "hf", "c2h4", "hcn", "h2"]
+SECOND_ROW = ["h2s", "hcl", "sih4"]  # d-shell elements under PM6 (9 basis functions per atom slot)
+NO_KSA = ("h2", "h-", "o2-")  # outside the Krylov solver's domain, see gen_session
 CLOSED_IONS = ["nh4+", "h3o+", "oh-", "h-", "nh2-", "o2-"]
 OPEN = ["ch3.", "oh.", "nh2.", "o2t", "ch2t"]
 
@@ -66,13 +71,21 @@ def batch_arrays(names, rotate, distort=0.0, geom_seed=0):
     return sp, xyz, ch, mult
 
 
-def real_orbital_index(species_row):
+def has_d(z):
+    """Elements that carry a d shell under PM6 (main-group third row and below, transition metals)."""
+    return 12 < z < 18 or 20 < z < 30 or 32 < z < 36 or 38 < z < 48 or 50 < z < 54 or 70 < z < 80 or z == 57
+
+
+def real_orbital_index(species_row, method="AM1"):
+    nbf = 9 if method == "PM6" else 4
     idx = []
     for a, z in enumerate(species_row):
-        if z > 1:
-            idx += [4 * a, 4 * a + 1, 4 * a + 2, 4 * a + 3]
+        if nbf == 9 and has_d(z):
+            idx += [nbf * a + j for j in range(9)]
+        elif z > 1:
+            idx += [nbf * a + j for j in range(4)]
         elif z == 1:
-            idx += [4 * a]
+            idx += [nbf * a]
     return idx
 
 
@@ -88,15 +101,22 @@ def residuals(mol, uhf):
     m = mol
     P = m.dm.detach()
     M, w, *_ = hcore(m)
-    p = m.parameters
-    args = (m.nmol, m.molsize, P, M, m.maskd, m.mask, m.idxi, m.idxj, w, torch.tensor([0]), p["g_ss"], p["g_pp"], p["g_sp"], p["g_p2"], p["h_sp"], m.method, p["s_orb_exp_tail"], p["p_orb_exp_tail"], p["d_orb_exp_tail"], m.Z, p["F0SD"], p["G2SD"])
+    M, w = M.detach(), w.detach()
+    p = {k: (v.detach() if torch.is_tensor(v) else v) for k, v in m.parameters.items()}
+    nbf = 9 if m.method == "PM6" else 4
+    W = torch.tensor([0])
+    if m.method == "PM6":
+        from seqm.seqm_functions.build_two_elec_one_center_int_D import calc_integral
+
+        W = calc_integral(p["s_orb_exp_tail"], p["p_orb_exp_tail"], p["d_orb_exp_tail"], m.Z, m.nmol * m.molsize * m.molsize, m.maskd, P, p["F0SD"], p["G2SD"])
+    args = (m.nmol, m.molsize, P, M, m.maskd, m.mask, m.idxi, m.idxj, w, W, p["g_ss"], p["g_pp"], p["g_sp"], p["g_p2"], p["h_sp"], m.method, p["s_orb_exp_tail"], p["p_orb_exp_tail"], p["d_orb_exp_tail"], m.Z, p["F0SD"], p["G2SD"])
     F = (fock_u_batch if uhf else fock)(*args)
-    Hc = M.reshape(m.nmol, m.molsize, m.molsize, 4, 4).transpose(2, 3).reshape(m.nmol, 4 * m.molsize, 4 * m.molsize)
+    Hc = M.reshape(m.nmol, m.molsize, m.molsize, nbf, nbf).transpose(2, 3).reshape(m.nmol, nbf * m.molsize, nbf * m.molsize)
     out = []
     Ee = (elec_energy(P, F, Hc) - m.Eelec.detach()).abs()
     nel = None
     for i in range(m.nmol):
-        idx = real_orbital_index(m.species[i].tolist())
+        idx = real_orbital_index(m.species[i].tolist(), m.method)
         blocks = [(P[i, s], F[i, s], float(m.nocc[i, s]), 1.0) for s in (0, 1)] if uhf else [(P[i], F[i], float(m.nocc[i]), 2.0)]
         r = {"sym": 0.0, "trace": 0.0, "idem": 0.0, "comm": 0.0, "rediag": 0.0, "gap": float("inf"), "pad": 0.0}
         tot = 0.0
@@ -147,10 +167,10 @@ def _child_session(rec):
     g = torch.Generator().manual_seed(rec["seed"] % (1 << 62))
     # faults act on the real-orbital block only (padding rows/columns of a density are never populated
     # by any caller; a fault there would test nothing the property speaks about)
-    nb = 4 * species.shape[1]
+    nb = (9 if rec["method"] == "PM6" else 4) * species.shape[1]
     rmask = torch.zeros(species.shape[0], nb, nb)
     for i_ in range(species.shape[0]):
-        idx_ = torch.tensor(real_orbital_index(species[i_].tolist()))
+        idx_ = torch.tensor(real_orbital_index(species[i_].tolist(), rec["method"]))
         rmask[i_][idx_.unsqueeze(1), idx_.unsqueeze(0)] = 1.0
     carried = {"P": None, "uhf": None, "geom": 0, "from": None}
     history = []  # densities of earlier solves (for the "stale" fault)
@@ -174,7 +194,9 @@ def _child_session(rec):
         return None
 
     def solve(cfgd, P0, cap, traced=True):
-        sp = {"method": rec["method"], "scf_eps": cfgd["eps"], "scf_converger": list(cfgd["conv"]), "sp2": list(cfgd["sp2"]), "UHF": bool(cfgd["uhf"])}
+        sp = {"method": rec["method"], "scf_eps": cfgd["eps"], "scf_converger": [dict(c_) if isinstance(c_, dict) else c_ for c_ in cfgd["conv"]], "sp2": list(cfgd["sp2"]), "UHF": bool(cfgd["uhf"])}
+        if cfgd.get("backward"):
+            sp["scf_backward"] = int(cfgd["backward"])  # implicit (1) or unrolled (2) differentiable SCF: other code paths of the same solvers
         mol = Molecule(Constants(), sp, x.clone(), species, charges=torch.tensor(ch), mult=torch.tensor(mult))
         mol.verbose = False
         es = Electronic_Structure(sp)
@@ -245,7 +267,8 @@ def _child_session(rec):
             entry["notconverged"] = nc
             entry["finite"] = bool(torch.isfinite(mol.Etot).all() and torch.isfinite(mol.force).all() and torch.isfinite(mol.dm).all())
             if entry["finite"]:
-                entry["res"] = residuals(mol, c["uhf"])
+                with torch.no_grad():
+                    entry["res"] = residuals(mol, c["uhf"])
             entry["Etot"] = mol.Etot.detach().tolist()
             if c["uhf"] and mol.dm.dim() == 4:
                 entry["spin"] = (mol.dm[:, 0] - mol.dm[:, 1]).detach().abs().amax(dim=(1, 2)).tolist()
@@ -258,7 +281,8 @@ def _child_session(rec):
                     rcfg = {"eps": 1e-11, "conv": [2], "sp2": [False], "uhf": False}
                     try:
                         rm, res_ = solve(rcfg, None, 1000, traced=False)
-                        rr = residuals(rm, False)
+                        with torch.no_grad():
+                            rr = residuals(rm, False)
                         refs[geom_id] = {"Etot": rm.Etot.detach().tolist(), "force": rm.force.detach().tolist(), "q": rm.q.detach().tolist(), "e_mo": rm.e_mo.detach().tolist(), "gap": [r["gap"] for r in rr], "notconverged": res_.notconverged.tolist()}
                     except Exception as e:  # noqa: BLE001
                         refs[geom_id] = {"exc": str(e)[:100]}
@@ -271,10 +295,19 @@ def _child_session(rec):
     return out
 
 
+def thermally_cold(c, gap):
+    """KSA solves use Fermi occupations at T_el: they coincide with the zero-temperature answer (to 1e-11) only while
+    gap / (2 kB T_el) > 25.  Otherwise the smearing legitimately changes density and energy."""
+    if c["conv"][0] != 3:
+        return True
+    return gap / (2.0 * 8.617333262e-5 * float(c["conv"][1]["T_el"])) > 25.0
+
+
 def tau_of(c, sp2_weight=0.1):
     """The threshold the statement refers to: SCF eps or (a multiple of) the SP2 tolerance, whichever
     dominates, divided by (1 - alpha) for fixed mixing (a change of eps per iteration leaves eps/(1-alpha))."""
     alpha = c["conv"][1] if c["conv"][0] == 0 and len(c["conv"]) > 1 else 0.0
+    alpha = min(alpha, 0.95)
     sp2 = c["sp2"][1] if c["sp2"][0] else 0.0
     if c["sp2"][0]:
         sp2 = min(max(sp2, 1e-7), 1e-3)  # the documented float64 window of the SP2 tolerance
@@ -299,6 +332,20 @@ def gen_session(rng, closed_only=False, gap_safe=False):
         batch.append(rng.choice(CLOSED_NEUTRAL[:5] if not uhf_session else OPEN[:3]))
     # species rows must be sorted inside a molecule only; batch order is free
     method = rng.choice(["AM1", "AM1", "PM3", "MNDO"])
+    u_ext = rng.random()
+    if not uhf_session and u_ext < 0.14:
+        # PM6 with d orbitals (9 basis functions per atom slot; restricted only): at least one d-shell element
+        method = "PM6"
+        batch = [b if rng.random() < 0.5 else rng.choice(SECOND_ROW) for b in batch]
+        if not any(b in SECOND_ROW for b in batch):
+            batch[rng.randrange(len(batch))] = rng.choice(SECOND_ROW)
+    elif not uhf_session and u_ext < 0.24:
+        # third-row elements under the sp-only Hamiltonians
+        batch[rng.randrange(len(batch))] = rng.choice(SECOND_ROW)
+    # The Krylov solver [3, {...}] (restricted, sp basis only) needs a LUMO for its chemical potential and a residual
+    # that does not vanish exactly: full-shell atoms (H-, O2-) and H2 (self-consistent after one step by symmetry) are
+    # outside its domain (loud errors / NaN flagged as not converged, DESIGN section 13) and are not combined with it.
+    ksa_ok = not uhf_session and method != "PM6" and not any(b in NO_KSA for b in batch)
     ops = []
 
     def cfg():
@@ -308,8 +355,15 @@ def gen_session(rng, closed_only=False, gap_safe=False):
         else:
             conv = rng.choice([[0, rng.choice([0.0, 0.2, 0.5, 0.8])], [1], [1], [2], [2]])
             sp2 = [False] if rng.random() < 0.55 else [True, rng.choice([1e-4, 1e-5, 1e-6, 1e-7, 1e-9])]
-            if closed_only and rng.random() < 0.15:
+            if closed_only and method != "PM6" and rng.random() < 0.15:
                 return {"eps": rng.choice([1e-4, 1e-6, 1e-8]), "conv": [1], "sp2": [False], "uhf": True}
+            u = rng.random()
+            if ksa_ok and u < 0.15:
+                ksa = {"T_el": rng.choice([300.0, 1000.0, 1500.0]), "max_rank": rng.randint(1, 4), "err_threshold": 0.0}
+                return {"eps": rng.choice([1e-4, 1e-6, 1e-8, 1e-10]), "conv": [3, ksa], "sp2": [False], "uhf": False}
+            if 0.15 <= u < 0.27:
+                # the differentiable variants of the same solvers (implicit / unrolled backward)
+                return {"eps": rng.choice([1e-4, 1e-6, 1e-8, 1e-10]), "conv": conv, "sp2": [False], "uhf": False, "backward": rng.choice([1, 2, 2])}
         return {"eps": rng.choice([1e-4, 1e-6, 1e-8, 1e-10]), "conv": conv, "sp2": sp2, "uhf": uhf_session}
 
     nops = rng.randint(3, 8)
